@@ -10,6 +10,8 @@ RECT = [(1.25, -0.45), (1.25, 0.45), (1.75, 0.45), (1.75, -0.45)]               
 SLANT = [(1.22, -0.50), (1.20, 0.42), (1.50, 0.52), (1.80, 0.40), (1.78, -0.44), (1.50, -0.56)]
 W2 = [(1.2, -0.5), (1.2, 0.5), (1.8, 0.5), (1.8, -0.5)]
 # a limiter-like section that cuts into the scrape-off layer away from the targets
+# a V-shaped floor: targets slanted strongly relative to the boundary-cell size, so that some contours fall short of the wall
+VFLOOR = [(1.2, -0.4), (1.5, -0.68), (1.8, -0.4), (1.8, 0.5), (1.2, 0.5)]
 LIMITER = [(1.25, -0.45), (1.25, 0.45), (1.75, 0.45), (1.75, 0.12), (1.668, 0.12), (1.668, -0.06), (1.75, -0.06), (1.75, -0.45)]
 
 
@@ -68,24 +70,37 @@ def seg_cross(p1, p2, w):
     return sorted(ts)
 
 
+def pre(res):
+    from gen import gen_contour
+
+    try:
+        changed = gen_contour.main()
+        res.extra["generated"] = {"file": "lean/HypnoModel/Gen/Contour.lean", "changed_since_last_run": bool(changed)}
+    except Exception as e:
+        res.extra["generated"] = {"error": "%s: %s" % (type(e).__name__, e)}
+        res.gen_error = "%s: %s" % (type(e).__name__, e)
+
+
 def specs_for(tier):
     import gridlab
 
     ex = ["wallinfo"]
-    S = [("rect-cw nonorth cdn", gridlab.tokamak_spec("cdn", options={"orthogonal": False}, wall=RECT, extract=ex)),
-         ("slanted-ccw nonorth cdn", gridlab.tokamak_spec("cdn", options={"orthogonal": False}, wall=SLANT[::-1], extract=ex)),
-         ("rect-cw orth lsn", gridlab.tokamak_spec("lsn", wall=RECT, extract=ex)),
-         ("slanted-cw orth udn", gridlab.tokamak_spec("udn", wall=SLANT, extract=ex)),
-         ("limiter-section orth lsn", gridlab.tokamak_spec("lsn", options={"psinorm_sol": 1.2}, wall=LIMITER, extract=ex))]
+    S = [("rect-cw nonorth cdn", gridlab.tokamak_spec("cdn", options={"orthogonal": False}, wall=RECT, extract_rz=ex)),
+         ("slanted-ccw nonorth cdn", gridlab.tokamak_spec("cdn", options={"orthogonal": False}, wall=SLANT[::-1], extract_rz=ex)),
+         ("rect-cw orth lsn", gridlab.tokamak_spec("lsn", wall=RECT, extract_rz=ex)),
+         ("slanted-cw orth udn", gridlab.tokamak_spec("udn", wall=SLANT, extract_rz=ex)),
+         ("limiter-section orth lsn", gridlab.tokamak_spec("lsn", options={"psinorm_sol": 1.2}, wall=LIMITER, extract_rz=ex)),
+         ("v-floor nonorth lsn", gridlab.tokamak_spec("lsn", options={"orthogonal": False, "nx_pf": 2, "psinorm_sol": 1.25, "psinorm_pf": 0.7,
+                                                                        "target_all_poloidal_spacing_length": 0.1}, wall=VFLOOR, extract_rz=ex))]
     if tier == "thorough":
-        S += [("slanted-cw nonorth cdn", gridlab.tokamak_spec("cdn", options={"orthogonal": False}, wall=SLANT, extract=ex)),
-              ("rect-fine nonorth cdn", gridlab.tokamak_spec("cdn", options={"orthogonal": False}, wall=subdivide(RECT, 7), extract=ex)),
-              ("rect nonorth lsn guards2", gridlab.tokamak_spec("lsn", options={"orthogonal": False, "y_boundary_guards": 2}, wall=W2, extract=ex)),
-              ("rect nonorth ldn", gridlab.tokamak_spec("ldn", options={"orthogonal": False}, wall=RECT, extract=ex)),
-              ("rect orth cdn guards0", gridlab.tokamak_spec("cdn", options={"y_boundary_guards": 0}, wall=RECT, extract=ex)),
-              ("slanted-fine orth usn", gridlab.tokamak_spec("usn", wall=subdivide(SLANT, 5), extract=ex)),
-              ("rect nonorth cdn Nfine80", gridlab.tokamak_spec("cdn", options={"orthogonal": False, "finecontour_Nfine": 80}, wall=RECT, extract=ex)),
-              ("slanted-ccw nonorth cdn Nfine80", gridlab.tokamak_spec("cdn", options={"orthogonal": False, "finecontour_Nfine": 80}, wall=SLANT[::-1], extract=ex))]
+        S += [("slanted-cw nonorth cdn", gridlab.tokamak_spec("cdn", options={"orthogonal": False}, wall=SLANT, extract_rz=ex)),
+              ("rect-fine nonorth cdn", gridlab.tokamak_spec("cdn", options={"orthogonal": False}, wall=subdivide(RECT, 7), extract_rz=ex)),
+              ("rect nonorth lsn guards2", gridlab.tokamak_spec("lsn", options={"orthogonal": False, "y_boundary_guards": 2}, wall=W2, extract_rz=ex)),
+              ("rect nonorth ldn", gridlab.tokamak_spec("ldn", options={"orthogonal": False}, wall=RECT, extract_rz=ex)),
+              ("rect orth cdn guards0", gridlab.tokamak_spec("cdn", options={"y_boundary_guards": 0}, wall=RECT, extract_rz=ex)),
+              ("slanted-fine orth usn", gridlab.tokamak_spec("usn", wall=subdivide(SLANT, 5), extract_rz=ex)),
+              ("rect nonorth cdn Nfine80", gridlab.tokamak_spec("cdn", options={"orthogonal": False, "finecontour_Nfine": 80}, wall=RECT, extract_rz=ex)),
+              ("slanted-ccw nonorth cdn Nfine80", gridlab.tokamak_spec("cdn", options={"orthogonal": False, "finecontour_Nfine": 80}, wall=SLANT[::-1], extract_rz=ex))]
     return S
 
 
@@ -97,13 +112,15 @@ def oracle(res, tier):
     sag = {}
     for (t, sp), o in zip(S, out):
         res.case(key=t, nontrivial=True, sample={"grid": t})
+        # the positions, targets and penalty mask are read right after calculateRZ(): they are judged also when geometry() later refuses
+        wi = (o.get("rz") or {}).get("wallinfo")
         if o["error"]:
-            res.extra.setdefault("refused", []).append([t, str(o["error"][:2])[:200]])
+            res.extra.setdefault("refused", []).append([t, str(o["error"][:2])[:200], "positions judged" if wi is not None else "before positions"])
+        if wi is None:
             continue
-        wi = o["extras"]["wallinfo"]
         win = [tuple(map(float, p)) for p in sp["wall"]]
         cw = wi["closed_wall"]
-        v = o["vars"]
+        v = o.get("vars")
         # --- wall output
         stored = [tuple(p) for p in cw[:-1]]
         if not np.array_equal(cw[0], cw[-1]):
@@ -113,7 +130,7 @@ def oracle(res, tier):
         rot = lambda w, k: w[k:] + w[:k]  # noqa: E731
         if not any(stored == rot(c, k) for c in (win, win[::-1]) for k in range(len(win))):
             res.violation("wall-vertices", "%s: the stored wall is not the input wall (possibly reversed)" % t, {"spec": sp})
-        if not (np.array_equal(v["closed_wall_R"], cw[:, 0]) and np.array_equal(v["closed_wall_Z"], cw[:, 1])):
+        if v is not None and not (np.array_equal(v["closed_wall_R"], cw[:, 0]) and np.array_equal(v["closed_wall_Z"], cw[:, 1])):
             res.violation("wall-output", "%s: closed_wall_R/Z in the grid file differ from the wall used" % t, {"spec": sp})
         if abs(abs(area2(stored)) - abs(area2(win))) > 1e-12:
             res.violation("wall-area", "%s: stored wall area differs from the input wall's" % t, {"spec": sp})
@@ -184,7 +201,7 @@ def oracle(res, tier):
                         res.violation("mask-value:%s" % t, "%s region %s: penalty_mask[%d,%d]=%.6f, the geometry gives %.6f (faces %s/%s the wall)"
                                       % (t, r["name"], i, jj, float(pm[i, jj]), exp, "outside" if o1 else "inside", "outside" if o2 else "inside"), {"spec": sp, "region": r["name"]})
             sx, sy = r["slice"]
-            if not np.array_equal(v["penalty_mask"][sx, sy], pm):
+            if v is not None and not np.array_equal(v["penalty_mask"][sx, sy], pm):
                 res.violation("mask-output:%s" % t, "%s region %s: penalty_mask in the file differs from the region's" % (t, r["name"]), {"spec": sp})
         res.extra.setdefault("worst", {})[t] = {"target_to_wall_m": worst_wall, "target_psi_error": worst_psi}
         sag[t] = worst_wall
@@ -271,6 +288,41 @@ def corr_insert(res, rng, n):
         lines.append("c11i %d %d %d 99 %s" % (si, ei, idx, " ".join(map(str, vals))))
         expect.append("%s | %d %d" % (" ".join(str(int(p.R)) for p in c.points), c.startInd, c.endInd))
     return lines, expect, "PsiContour.insert"
+
+
+def corr_extend(res, rng, n):
+    """PsiContour.temporaryExtend on straight contours (psi = Z, points on Z = 0, spacing 10): which candidates are added before the range
+    test stops the loop, and where startInd / endInd point afterwards"""
+    import contextlib
+    import io
+    import warnings
+    from hypnotoad.core.equilibrium import PsiContour, Point2D
+
+    lines, expect = [], []
+    hist = {"neg_end": 0, "stopped_by_range": 0, "both_sides": 0}
+    for _ in range(n):
+        m = rng.randint(4, 9)
+        v0 = 10 * rng.randint(3, 8)
+        vals = [v0 + 10 * i for i in range(m)]
+        nl, nu = rng.choice([(0, 1), (1, 0), (1, 1), (2, 0), (0, 2), (2, 3), (3, 2)])
+        lo = vals[0] - 10 * rng.randint(0, 4) - 5
+        hi = vals[-1] + 10 * rng.randint(0, 4) + 5
+        with warnings.catch_warnings(), contextlib.redirect_stdout(io.StringIO()):
+            warnings.simplefilter("ignore")
+            c = PsiContour(points=[Point2D(float(v), 0.0) for v in vals], psival=0.0, settings={}, Rrange=(lo, hi), Zrange=(-1, 1))
+            si = rng.randint(0, m - 1)
+            ei = rng.choice([rng.randint(si, m - 1), rng.randint(si - m, -1)])
+            c.startInd, c.endInd = si, ei
+            c.temporaryExtend(psi=lambda R, Z: Z + 0.0 * R, extend_lower=nl, extend_upper=nu, ds_lower=10.0, ds_upper=10.0)
+        lows = [vals[0] - 10 * (i + 1) for i in range(nl)]
+        ups = [vals[-1] + 10 * (i + 1) for i in range(nu)]
+        hist["neg_end"] += ei < 0
+        hist["stopped_by_range"] += len(c.points) < m + nl + nu
+        hist["both_sides"] += nl > 0 and nu > 0
+        lines.append("c11x %d %d %d %d %d %d %s" % (si, ei, lo, hi, nl, nu, " ".join(map(str, lows + ups + vals))))
+        expect.append("%s | %d %d" % (" ".join(str(int(round(float(p.R)))) for p in c.points), c.startInd, c.endInd))
+    res.extra.setdefault("inputs", {})["temporaryExtend"] = hist
+    return lines, expect, "PsiContour.temporaryExtend"
 
 
 def corr_addwall(res, rng, n):
@@ -388,7 +440,8 @@ def correspondence(res, tier):
 
     rng = vlib.rng("C11-corr")
     k = 1 if tier == "quick" else 6
-    batches = [corr_wall(res, rng, 120 * k), corr_insert(res, rng, 150 * k), corr_addwall(res, rng, 150 * k), corr_mask(res, rng, 200 * k)]
+    batches = [corr_wall(res, rng, 120 * k), corr_insert(res, rng, 150 * k), corr_addwall(res, rng, 150 * k), corr_mask(res, rng, 200 * k),
+               corr_extend(res, rng, 150 * k)]
     out = vlib.lean_driver([ln for b in batches for ln in b[0]])
     i = 0
     for ls, ex, name in batches:
